@@ -28,7 +28,7 @@ func init() {
 				"profile, device and their nested settings types is read by the cache encoder and written by the decoder. R7: no " +
 				"encoder loop appends a view of a buffer that the next iteration overwrites.",
 			NotCovered: "that the maps equal a reference model after arbitrary synchronisation sequences; protobuf wire compatibility.",
-			Rules: map[string]string{"C14-R20": "filecachepb.(*Ratelimiter).toInternal: the global limiter exactly for absent or disabled settings, otherwise the profile's own with the stored limit and subnets (shared with C09-R13)", "C14-R21": "filecachepb.ipToBytes stores netip.Addr.MarshalBinary of the address, so a device without a linked IP comes back without one", "C14-R18": "every clean-up goroutine of the profile database deletes from the index map that the lookup which starts it reads", "C14-R19": "the access settings a profile was built with are what Config() reports for the file cache, whether or not the profile has served a query in between (shared with C10-R6)", "C14-R17": "the backendpb converters read a field through a sub-message pointer only after a nil test of it (a panic in the synchronisation ends the periodic refresh loop)", "C14-R16": "ProfileStorage.Profiles hands on every received profile that converts (from the success edge of toInternal the next receive is reachable only through the appends to Profiles and Devices)", "C14-R15": "ProfileByHumanID answers only when the profile that contains the found device is the requested one (stale (profile, human ID) keys of moved devices)", "C14-RC": "class rules (error chains, shadowed results, character classes, crossed arguments, pool constructors, array pools, loop completeness, loop-carried buffers, replacing setters, complete clones, Grow arithmetic, pooled-buffer escape, sorted searches, fresh decode targets, per-iteration objects, whole-message copies, codec guards) over the packages this property rests on", "C14-R14": "profile decoders return a usable value, never a nil interface, on error-free paths (expected count zero; F16 was the one instance)", "C14-R13": "profile codecs: early default returns only for nil / disabled input; nil sub-messages only for nil input (shared class rules)", "C14-R12": "the periodic refresh worker that drives the profile sync (shared rule, see C13-R11)", "C14-R11": "weekly-schedule codecs: all seven weekdays converted, each from/to the field of its own day (constant-index stores or a full loop over a weekday-ordered list)", "C14-R1": "maps and generation only under mapsMu", "C14-R2": "clean-ups re-validated by generation; inserts bump it",
+			Rules: map[string]string{"C14-R22": "cmd.setServerGroupProperties collects every bind prefix of every server, single addresses included, into the set against which the backend decoder checks dedicated addresses: the append is not made under a test of IsSingleIP (a device whose dedicated address is one of the single-address binds would be dropped at every synchronisation)", "C14-R20": "filecachepb.(*Ratelimiter).toInternal: the global limiter exactly for absent or disabled settings, otherwise the profile's own with the stored limit and subnets (shared with C09-R13)", "C14-R21": "filecachepb.ipToBytes stores netip.Addr.MarshalBinary of the address, so a device without a linked IP comes back without one", "C14-R18": "every clean-up goroutine of the profile database deletes from the index map that the lookup which starts it reads", "C14-R19": "the access settings a profile was built with are what Config() reports for the file cache, whether or not the profile has served a query in between (shared with C10-R6)", "C14-R17": "the backendpb converters read a field through a sub-message pointer only after a nil test of it (a panic in the synchronisation ends the periodic refresh loop)", "C14-R16": "ProfileStorage.Profiles hands on every received profile that converts (from the success edge of toInternal the next receive is reachable only through the appends to Profiles and Devices)", "C14-R15": "ProfileByHumanID answers only when the profile that contains the found device is the requested one (stale (profile, human ID) keys of moved devices)", "C14-RC": "class rules (error chains, shadowed results, character classes, crossed arguments, pool constructors, array pools, loop completeness, loop-carried buffers, replacing setters, complete clones, Grow arithmetic, pooled-buffer escape, sorted searches, fresh decode targets, per-iteration objects, whole-message copies, codec guards) over the packages this property rests on", "C14-R14": "profile decoders return a usable value, never a nil interface, on error-free paths (expected count zero; F16 was the one instance)", "C14-R13": "profile codecs: early default returns only for nil / disabled input; nil sub-messages only for nil input (shared class rules)", "C14-R12": "the periodic refresh worker that drives the profile sync (shared rule, see C13-R11)", "C14-R11": "weekly-schedule codecs: all seven weekdays converted, each from/to the field of its own day (constant-index stores or a full loop over a weekday-ordered list)", "C14-R1": "maps and generation only under mapsMu", "C14-R2": "clean-ups re-validated by generation; inserts bump it",
 				"C14-R3": "full sync clears all maps", "C14-R4": "lookup re-check decision trees", "C14-R5": "atomic cache write, version check",
 				"C14-R6": "codec field coverage", "C14-R7": "no loop-carried buffer aliasing in the encoder",
 				"C14-R8": "synchronisation protocol tables: Refresh (apply exactly what was fetched, advance the sync point, store the file cache on a full sync), fetchProfiles (a full sync asks from the zero time), needsFullSync, loadFileCache"},
@@ -41,11 +41,16 @@ var c14Maps = map[string]bool{"profiles": true, "devices": true, "dedicatedIPToD
 const pdb = "profiledb.(*Default)."
 
 func runC14(c *an.Ctx) {
+	// ---- R22: the bind set holds every bind prefix
+	c.Floor("C14-R22", 1)
+	c14BindSetComplete(c, "C14-R22")
 	classSweep(c, "C14")
 	// ---- R20: a profile's rate-limit settings come back from the file cache as they went in (table shared with
 	// C09-R13); R21: an address is stored in its marshalled form, in which "no address" stays "no address"
 	c.Floor("C14-R20", 1)
-	c.Borrow("C14-R20", runC09, func(o an.Obligation) bool { return o.Rule == "C09-R13" && strings.Contains(o.Key, "filecachepb.(*Ratelimiter).toInternal") })
+	c.Borrow("C14-R20", runC09, func(o an.Obligation) bool {
+		return o.Rule == "C09-R13" && strings.Contains(o.Key, "filecachepb.(*Ratelimiter).toInternal")
+	})
 	c.Floor("C14-R21", 1)
 	decide(c, "C14-R21", "profiledb/internal/filecachepb.ipToBytes", an.DecideCfg{
 		Dom: an.Domain{},
@@ -1714,4 +1719,46 @@ func c14CleanupSameIndex(c *an.Ctx, rule string) (examined int) {
 		}
 	}
 	return examined
+}
+
+// c14BindSetComplete: backendpb rejects a device whose dedicated address is not
+// in the bind set built by cmd.(*builder).setServerGroupProperties.  When the
+// subnet form of the set is used, it has to hold the single-address binds too.
+// Every append to the slice that goes to netutil.SliceSubnetSet is free of a
+// dominating test of (netip.Prefix).IsSingleIP.
+func c14BindSetComplete(c *an.Ctx, rule string) {
+	k := "cmd.(*builder).setServerGroupProperties"
+	fn := c.Prog.Fn(k)
+	key := k + " puts every bind prefix into the subnet set"
+	if fn == nil {
+		c.Und(rule, key, token.NoPos, "anchor not found")
+		return
+	}
+	c.Analysed(k)
+	n, bad := 0, ""
+	for _, call := range an.Calls(fn) {
+		b, ok := call.Common().Value.(*ssa.Builtin)
+		if !ok || b.Name() != "append" {
+			continue
+		}
+		if sl, ok := call.Value().Type().Underlying().(*types.Slice); !ok || !strings.HasSuffix(sl.Elem().String(), "netip.Prefix") {
+			continue
+		}
+		n++
+		for _, e := range an.DominatingConds(call.Block()) {
+			cond := e.If.Cond
+			if u, ok := cond.(*ssa.UnOp); ok && u.Op == token.NOT {
+				cond = u.X
+			}
+			if cl, ok := cond.(*ssa.Call); ok && an.CalleeName(cl) == "(net/netip.Prefix).IsSingleIP" {
+				bad = "the append at " + c.Pos(call.Pos()) + " is made under a test of IsSingleIP (" + c.Pos(e.If.Pos()) + ")"
+			}
+		}
+	}
+	if n == 0 {
+		c.Und(rule, key, fn.Pos(), "no append of bind prefixes found")
+		return
+	}
+	c.Check(bad == "", rule, key, fn.Pos(), fmt.Sprintf("%d append(s) of bind prefixes, none under a test of IsSingleIP", n),
+		bad+": with real subnets and single addresses mixed in the bind data, the single addresses are missing from the set, and every device whose dedicated address is one of them is rejected at each synchronisation")
 }
